@@ -218,3 +218,11 @@ impl Clone for IBig {
         self.0.clone_from(&source.0)
     }
 }
+
+#[cfg(dashu_verif)]
+impl IBig {
+    /// Verification hook, see `Repr::verif_layout`.
+    pub fn verif_layout(&self) -> (isize, usize, [crate::Word; 2], usize) {
+        self.0.verif_layout()
+    }
+}
